@@ -26,7 +26,7 @@ TEMPLATE = ("{year}{month}{day}_{hour}{minute}{second}{millisecond}-"
             "{end_year}{end_month}{end_day}_{end_hour}{end_minute}{end_second}{end_millisecond}.pkl")
 EPOCH = dt.datetime(1970, 1, 1)
 US = dt.timedelta(microseconds=1)
-CALL_TIMEOUT = 120          # seconds for one collocate_filesets call (normally ~1 s)
+CALL_TIMEOUT = 60          # seconds for one collocate_filesets call (normally ~1 s)
 
 # jitter (degrees) of points around a site centre: pairs at one site are < 35 km apart,
 # different sites are > 1000 km apart; max_distance is drawn from [60, 400] km -> every
@@ -46,28 +46,32 @@ def gen_case(rng):
     (millisecond placeholders), in datetime64[ns] and in the model (µs)."""
     day_ms = 86_400_000
     origin = dt.datetime(2016, 1, 1) + dt.timedelta(days=rng.randint(0, 1500))
-    style = rng.choice(["regular", "regular", "big-covers-many", "gaps", "midnight", "tiny", "overlap"])
+    style = rng.choice(["regular", "regular", "big-covers-many", "gaps", "midnight", "tiny", "overlap", "sparse"])
+    unit = rng.choice([1000, 60_000, 60_000, 600_000])        # typical file length scale (ms)
+    span = rng.randint(6, 16) * unit                          # both filesets cover about the same span
     base = rng.choice([0, 3_600_000 * rng.randint(1, 20)])
     if style == "midnight":
-        base = day_ms - rng.randint(1, 30) * 60_000          # data straddles midnight -> two 'daily' tags
-    unit = rng.choice([1000, 60_000, 60_000, 600_000])        # typical file length scale (ms)
-    nsites = rng.randint(1, 3)
+        base = day_ms - span // 2                             # data straddles midnight -> two 'daily' tags
+    nsites = 1 if rng.random() < 0.6 else 2
     sites = rng.sample(SITES, nsites)
     next_id = [1000, 5000]
     used_t = set()
     sets = []
+    big = rng.randrange(2)
     for k in range(2):
         files = []
-        t = base + rng.randint(0, 3) * unit
-        nfiles = rng.randint(1, 3) if style == "tiny" else rng.randint(2, 7)
-        if style == "big-covers-many" and k == rng.randint(0, 1):
-            nfiles = rng.randint(1, 2)
-        for f in range(nfiles):
-            length = rng.choice([1, 2, 3, 5]) * unit
-            if style == "big-covers-many" and nfiles <= 2:
-                length = rng.randint(8, 20) * unit
+        t = base + rng.randint(0, 2) * (unit // 2)
+        k_end = base + span
+        if style == "tiny":
+            k_end = base + rng.randint(1, 3) * unit
+        while (t < k_end or not files) and len(files) < 9:
+            length = rng.choice([1, 1, 2, 3, 5]) * unit
+            if style == "big-covers-many" and k == big:
+                length = rng.randint(6, 16) * unit               # one file covering many of the other set
             lo, hi = t, t + length
-            npts = rng.choice([1, 1, 2, 3, 4, 6])     # >= 1: collocate() raises ValueError on an empty dataset (see notes/C05.md)
+            npts = rng.choice([1, 2, 2, 3, 4, 6])     # >= 1: collocate() raises ValueError on an empty dataset (see notes/C05.md)
+            if style == "sparse":
+                npts = 1
             pts = []
             for _ in range(npts):
                 tm = rng.choice([lo, hi, rng.randint(lo, hi), rng.randint(lo, hi)])
@@ -97,12 +101,13 @@ def gen_case(rng):
         sets.append(files)
     all_lo = min(f["lo"] for s in sets for f in s)
     all_hi = max(f["hi"] for s in sets for f in s)
-    mi_us = rng.choice([1_000_000, 30_000_000, 60_000_000, 1_500_000, unit * 1000, unit * 500 + 500, 5 * unit * 1000])
-    if rng.random() < 0.55:
+    # max_interval relative to the file length scale (µs); whole seconds, off the ms grid, tiny
+    mi_us = rng.choice([unit * 300, unit * 1000, unit * 1000 + 500, unit * 3000, unit * 2000, 1_500_000, 60_000_000])
+    if rng.random() < 0.6:
         start_us, end_us = (all_lo - 3_600_000) * 1000, (all_hi + 3_600_000) * 1000
     else:   # period cutting through files; off the millisecond grid half of the time
-        a = rng.randint(all_lo, all_hi)
-        b = rng.randint(a, all_hi + unit)
+        a = rng.randint(all_lo, (all_lo + all_hi) // 2)
+        b = rng.randint((all_lo + all_hi) // 2, all_hi + unit)
         off = rng.choice([0, 500])
         start_us, end_us = a * 1000 + off, b * 1000 + 1000 + off
     return {"op": "cf", "style": style, "origin_us": (origin - EPOCH) // US, "sets": sets,
@@ -133,7 +138,13 @@ def would_collide(case):
 def gen_config(rng, case, force=None, allow_collision=False):
     cfg = {"procs": rng.choice([1, 2, 2, 3, 4]), "bundle": rng.choice([None, "primary", "daily"]),
            "output": "fileset" if rng.random() < 0.25 else "memory",
-           "skip": False, "broken": None, "put_delay": rng.choice([0, 0, 0.002])}
+           "skip": False, "broken": None, "put_delay": rng.choice([0, 0, 0.002]),
+           "alive_delay": rng.choice([0, 0.003, 0.01, 0.03])}
+    if rng.random() < 0.3:
+        # race stress: workers slower than the parent (each put arrives while the parent idles in its
+        # `running` filter, whose is_alive() calls are slowed): the last worker's final put + exit fall
+        # between the parent's `empty()` test and its liveness test with high probability
+        cfg["put_delay"], cfg["alive_delay"] = 0.12, 0.04
     r = rng.random()
     if r < 0.25:
         k = rng.randrange(2)
@@ -251,8 +262,10 @@ def run_real(case, cfg, sets, root):
         od = tempfile.mkdtemp(dir=root, prefix="out")
         out = Collocations(os.path.join(od, TEMPLATE), name="out",
                            handler=FileHandler(reader=W.out_reader, writer=W.out_writer), read_mode="compact")
-    old_q = CM.Queue
+    old_q, old_p = CM.Queue, CM.Process
     CM.Queue = W.make_queue
+    CM.Process = W.make_process_class()
+    W.ALIVE_DELAY["s"] = cfg.get("alive_delay", 0)
     W.GET_LOG.clear()
     W.PUT_DELAY["each"] = cfg.get("put_delay", 0)
     old_handler = signal.signal(signal.SIGALRM, _alarm)
@@ -275,8 +288,9 @@ def run_real(case, cfg, sets, root):
     finally:
         signal.setitimer(signal.ITIMER_REAL, 0)
         signal.signal(signal.SIGALRM, old_handler)
-        CM.Queue = old_q
+        CM.Queue, CM.Process = old_q, old_p
         W.PUT_DELAY["each"] = 0
+        W.ALIVE_DELAY["s"] = 0
     res["get_log"] = list(W.GET_LOG)
     return res
 
@@ -294,6 +308,8 @@ def sorted_files(case, k):
 def check_run(ck, case, cfg, scratch, use_model=True):
     """returns True when the run was explored (counts as a case)"""
     import typhon.collocations.collocator as CM
+    if getattr(ck, "hung", False):
+        return False
     root = tempfile.mkdtemp(dir=scratch)
     full = dict(case, cfg=cfg)
     try:
@@ -329,6 +345,7 @@ def check_run(ck, case, cfg, scratch, use_model=True):
             r = run_real(case, cfg, sets, root)
             if r["error"] == "timeout":
                 ck.violation("hang", f"collocate_filesets did not finish within {CALL_TIMEOUT} s (twice)", full)
+                ck.hung = True          # decisive: stop exploring (every further run would cost minutes)
                 return True
         crash_expected = cfg["broken"] is not None and not cfg["skip"] and \
             any((cfg["broken"][0] == 0 and p == cfg["broken"][1]) or (cfg["broken"][0] == 1 and cfg["broken"][1] in ss)
@@ -360,6 +377,10 @@ def check_run(ck, case, cfg, scratch, use_model=True):
                     if list(f.times) != [lo, hi]:
                         ck.violation("output-name", f"output file {os.path.basename(f.path)} holds collocations spanning {lo}..{hi}", full)
         got.sort()
+        if crashed_marker and not crash_expected:
+            ck.violation("worker-crashed", f"processes={cfg['procs']} bundle={cfg['bundle']} skip={cfg['skip']} broken={cfg['broken']}: the generator "
+                                           f"yielded {crashed_marker} ProcessCrashed marker(s) although no file is unreadable"
+                                           + (" (skip_file_errors=True)" if cfg["skip"] else ""), full)
         npairs = len(want_all)
         key = None
         if npairs > 1 and len(matched) > 1:
